@@ -13,6 +13,21 @@ depends on. Anything outside the understood forms is refused."""
 import ast, os
 from py2lean import Refuse
 
+def _robust(gen, what):
+    """a source shape the spec did not anticipate is a readable refusal (tie broken), never a crash"""
+    def wrapped(repo):
+        try:
+            return gen(repo)
+        except Refuse:
+            raise
+        except (AttributeError, IndexError, KeyError, TypeError, ValueError, AssertionError) as e:
+            import traceback
+            tb = traceback.extract_tb(e.__traceback__)[-1]
+            raise Refuse(f'{what}: source has a shape this translator does not understand '
+                         f'({type(e).__name__}: {e}; while reading `{(tb.line or "").strip()[:70]}`)')
+    wrapped.__name__ = getattr(gen, '__name__', 'generator')
+    return wrapped
+
 SRC = 'lentil/detector.py'
 
 def _fn(tree, name):
@@ -141,4 +156,4 @@ def generator(repo):
     a, na = _adc(tree)
     return '\n'.join(b + a), [nb, na]
 
-MODULES = [{'name': 'DetectorIdx', 'src': SRC, 'generator': generator, 'props': ['C16']}]
+MODULES = [{'name': 'DetectorIdx', 'src': SRC, 'generator': _robust(generator, 'collect_charge_bayer / adc bookkeeping'), 'props': ['C16']}]
